@@ -39,10 +39,14 @@ def _hist(rng):
     for _ in range(rng.randint(2, 9)):
         k = rng.random()
         if nobj == 0 or k < 0.4:
-            evs.append(['o', rng.randrange(3)])
+            # O: the file opened as a plain netCDF4.Dataset by the caller (the library accepts such objects as input)
+            evs.append([rng.choice(['o', 'o', 'O']), rng.randrange(3)])
             nobj += 1
-        elif k < 0.75:
+        elif k < 0.65:
             evs.append(['c', rng.randrange(nobj)])
+        elif k < 0.8:
+            # w: the object is handed to the writer (save / pncwrite) - a query, it stays open and readable
+            evs.append(['w', rng.randrange(nobj)])
         else:
             evs.append(['d', rng.randrange(nobj)])
     return dict(kind='hist', evs=evs)
@@ -51,7 +55,10 @@ def _hist(rng):
 TIMEQ = ['getTimes', 'getTimes_bounds', 'getTimes_tb', 'getTimes_tflag', 'getTimes_tau0', 'getTimes_dt64',
          'time2t_nearest', 'time2t_bounds', 'time2t_bounds_close']
 QUERIES = TIMEQ + ['val2idx_nearest', 'val2idx_bounds', 'val2idx_exact', 'repr', 'save', 'slice_dim', 'getvarpnc',
-           'pncrename', 'eval_bare', 'eval_expr', 'eval_chain', 'eval_chain_assign']
+           'pncrename', 'eval_bare', 'eval_expr', 'eval_chain', 'eval_chain_assign',
+           # results that could be views: an index / asarray of an input, a scalar variable, a variable only the left
+           # operand of an operator has; an argument file whose coordinate variable is the target of an interpolation
+           'eval_view', 'eval_asarray', 'eval_scalar', 'binop_leftonly', 'interp_other']
 
 
 def _pure(rng):
@@ -127,9 +134,26 @@ def _run_hist(evs):
             if k == 'o':
                 objs.append(pnc.pncopen(paths[a], format='netcdf'))
                 files.append(a)
+            elif k == 'O':
+                objs.append(netCDF4.Dataset(paths[a]))
+                files.append(a)
+            elif k == 'w':
+                if objs[a] is not None and objs[a].isopen():
+                    from PseudoNetCDF.pncgen import pncgen
+                    outp = os.path.join(d, 'w%d.nc' % len(out))
+                    try:
+                        o2 = pncgen(objs[a], outp, format='NETCDF4_CLASSIC', verbose=0)
+                        o2.close()
+                    except Exception:
+                        pass
             elif k == 'c':
                 if objs[a] is not None:
-                    objs[a].close()
+                    # closing twice is the library's business for its own objects; a plain netCDF4.Dataset is the caller's
+                    # (netCDF4 itself does not guard a second close)
+                    if not isinstance(objs[a], pnc.PseudoNetCDFFile) and not objs[a].isopen():
+                        pass
+                    else:
+                        objs[a].close()
             else:
                 objs[a] = None
                 gc.collect()
@@ -244,6 +268,41 @@ def _query(f, q, spec):
         if not ks:
             return None
         return f.eval('NEWVAR = %s * 2' % ks[0])
+    if q in ('eval_view', 'eval_asarray'):
+        ks = [k for k in f.variables if k not in coords and f.variables[k].ndim > 0]
+        if not ks:
+            return None
+        return f.eval('NEWVAR = %s' % ({'eval_view': '%s[:]', 'eval_asarray': 'np.asarray(%s)'}[q] % ks[0]))
+    if q == 'eval_scalar':
+        ks = [k for k in f.variables if f.variables[k].ndim == 0]
+        if not ks:
+            return None
+        return f.eval('NEWVAR = %s' % ks[0])
+    if q == 'binop_leftonly':
+        ks = [k for k in f.variables if k not in coords]
+        if len(ks) < 2:
+            return None
+        h = f.copy()
+        del h.variables[ks[-1]]
+        return f + h
+    if q == 'interp_other':
+        # the new coordinate is a float64 variable of ANOTHER file (values outside the receiver's range included)
+        cs = [c for c in coords if f.variables[c].ndim == 1 and len(f.dimensions[c]) >= 2]
+        if not cs:
+            return None
+        c = cs[0]
+        old = np.asarray(f.variables[c][:], dtype='d')
+        h = pnc.PseudoNetCDFFile()
+        tgt = np.concatenate([[old.min() - 2.5], (old[:-1] + old[1:]) / 2., [old.max() + 1.5]])
+        h.createDimension('n', len(tgt))
+        tv = h.createVariable('target', 'd', ('n',))
+        tv[:] = tgt
+        before = np.array(tv[:])
+        g = f.interpDimension(c, h.variables['target'])
+        if not np.array_equal(before, np.asarray(h.variables['target'][:])):
+            raise lib.HarnessError('ARGCHANGED interpDimension changed the coordinate variable of the file it was given as target: %s -> %s' % (
+                before.tolist(), np.asarray(h.variables['target'][:]).tolist()))
+        return g
     raise ValueError(q)
 
 
@@ -255,6 +314,8 @@ def impl(case):
     except (RuntimeError, lib.HarnessError) as e:
         if 'Not a valid ID' in str(e):
             return dict(foreign='%s: %s' % (type(e).__name__, str(e)[-160:].replace('\n', ' ')))
+        if 'ARGCHANGED' in str(e):
+            return dict(argchanged=str(e).split('ARGCHANGED', 1)[1].strip()[:300])
         raise
 
 
@@ -343,6 +404,8 @@ def _impl_pure(case, spec, f):
                     g = _query(f, case['op'][1], spec)
                 else:
                     g = c01._apply(f, case['op'])
+        except lib.HarnessError:
+            raise
         except Exception as e:
             res['err'] = type(e).__name__
             g = None
@@ -367,6 +430,13 @@ def _impl_pure(case, spec, f):
                     v[...] = 123
                 else:
                     v[...] = np.zeros(v.shape, dtype=v.dtype) + 77
+            except Exception:
+                pass
+        # ... and into its dimensions (marking a record dimension before saving)
+        for dk in list(g.dimensions):
+            try:
+                dd = g.dimensions[dk]
+                dd.setunlimited(not dd.isunlimited())
             except Exception:
                 pass
         res['changed_after_write'] = _after(before, f)
@@ -413,34 +483,44 @@ def _impl_iopure(case):
 
 def to_line(case, res):
     if case['kind'] == 'hist':
-        return 'c05h hist %s' % ','.join('%s:%d' % (k, a) for k, a in case['evs'])
+        return 'c05h hist %s' % ','.join('%s:%d' % (k.lower(), a) for k, a in case['evs'] if k != 'w')
     return 'c05h hist o:0'      # purity/aliasing: the model has nothing to add (functional model), see DESIGN
 
 
 def agree(case, out, res):
-    if case['kind'] != 'hist' or 'foreign' in res:
+    if case['kind'] != 'hist' or 'foreign' in res or 'argchanged' in res:
         return None
     if not out.startswith('ok '):
         return 'model ' + out[:60]
     m = out[3:].split(',')
-    if m != res['flags']:
-        for i, (a, b) in enumerate(zip(m, res['flags'])):
+    # a save is no event of the model: readability after it is that before it
+    mm, j = [], 0
+    for k, a in case['evs']:
+        if k == 'w':
+            mm.append(mm[-1] if mm else '')
+        else:
+            mm.append(m[j] if j < len(m) else '?')
+            j += 1
+    if mm != res['flags']:
+        for i, (a, b) in enumerate(zip(mm, res['flags'])):
             if a != b:
                 return 'after event %d (%s): model readability %s, impl %s' % (i, case['evs'][i], a, b)
-        return 'model %s impl %s' % (m, res['flags'])
+        return 'model %s impl %s' % (mm, res['flags'])
     return None
 
 
 def oracle(case, res):
     if 'foreign' in res:
         return 'a netCDF handle that was open and in use stopped working (closed by a finaliser that did not own it): ' + res['foreign']
+    if 'argchanged' in res:
+        return res['argchanged']
     if case['kind'] == 'hist':
         closed = set()
         n = 0
         for i, ((k, a), flags) in enumerate(zip(case['evs'], res['flags'])):
-            if k == 'o':
+            if k in ('o', 'O'):
                 n += 1
-            else:
+            elif k != 'w':
                 closed.add(a)
             for j in range(n):
                 if j not in closed and flags[j] != '1':
@@ -469,7 +549,7 @@ def classify(case, failure, model_out):
 def nontrivial(case, res):
     if case['kind'] == 'hist':
         ks = [k for k, a in case['evs']]
-        return ks.count('o') >= 2 and ('c' in ks or 'd' in ks)
+        return ks.count('o') + ks.count('O') >= 2 and ('c' in ks or 'd' in ks)
     return res.get('nvars', 0) >= 1
 
 
